@@ -111,6 +111,13 @@ EvForge(ev) ==
     /\ UNCHANGED <<peers, flash, adm, admc, parked, seen, sent, orig, ndup>>
     /\ obs' = [conf |-> ev.b \in Bad /\ gs \in ForgeMenu(ev.b, ev.item, ev.b) \cup UNION {ForgeMenu(ev.b, ev.item, v) : v \in Node}, a |-> ev.a]
 
+\* a forged item: the real handler must refuse it, admit nothing, send nothing (and remember the hash)
+EvPoison(ev) ==
+    IF ENABLED Poison(ev.b, ev.to, ev.item)
+    THEN Poison(ev.b, ev.to, ev.item)
+         /\ obs' = [conf |-> ev.res = "err" /\ adm[ev.to] = ToSet(ev.adm) /\ ev.new = <<>>, a |-> ev.a]
+    ELSE UNCHANGED vars /\ obs' = [conf |-> ev.res = "ok" \/ ev.res = "err", a |-> ev.a]
+
 EvQuiesce(ev) ==
     /\ UNCHANGED vars
     /\ obs' = [conf |-> /\ \A n \in Honest : adm[n] = ToSet(ev.state[n].adm) /\ parked[n] = ToSet(ev.state[n].parked)
@@ -128,6 +135,7 @@ TNext ==
          [] ev.a = "Get" -> EvGet(ev)
          [] ev.a = "Retry" -> EvRetry(ev)
          [] ev.a = "Forge" -> EvForge(ev)
+         [] ev.a = "Poison" -> EvPoison(ev)
          \* the behaviour asked for a message the real network does not hold: the replay diverged from the model's
          \* run (any difference in what a node SENT was already judged at the event that sent it)
          [] ev.a = "Missing" -> UNCHANGED vars /\ obs' = [conf |-> TRUE, a |-> "MissingMessage"]
@@ -142,5 +150,8 @@ C11_AllReachedAtEnd ==
 C11_AllReachedAtEndModuloF13 ==
     AtEnd => \A i \in orig, n \in Honest : (Origin[i] \in Honest /\ n \in HonestReach(Origin[i]) /\ i \notin adm[n]) =>
         \E r \in Honest : r # Origin[i] /\ ((i \in adm[r] /\ sent[r][i] = 0) \/ i \in parked[r])
+C12_AtEndModuloF14 ==
+    AtEnd => \A i \in orig, n \in Honest : (Origin[i] \in Honest /\ n \in HonestReach(Origin[i]) /\ i \notin adm[n]) =>
+        (i \in flash[n] /\ i \notin parked[n])
 Accepted == TLCGet("stats").diameter = Len(TLog) + 1
 =============================================================================
